@@ -314,13 +314,20 @@ class Log2Val(SymReal):
   def floor(self): return SymInt(self.f)
 
 
+ASSUME_LOG_POSITIVE = [False]
+
+
 def stub_log2(x):
   n = lift(x)
   c = _ctx()
   if not c.feasible(n > 0):
     raise Infeasible()
   if c.feasible(n <= 0):
-    raise PathLimit("log2 of a possibly non-positive value %s" % z3.simplify(n))
+    if ASSUME_LOG_POSITIVE[0]:
+      fact(n > 0)         # degenerate (log of a non-positive quantity) executions are outside the claim of the caller
+    else:
+      raise PathLimit("log2 of a possibly non-positive value %s" % z3.simplify(n))
+  c.log2_args = getattr(c, "log2_args", []) + [n]
   return Log2Val(n)
 
 
@@ -482,7 +489,7 @@ def explore(fn, base=(), max_paths=256):
     CTX = Ctx(dec, base)
     try:
       res = fn()
-      paths.append((list(CTX.pc), res, list(CTX.facts)))
+      paths.append((list(CTX.pc), res, list(CTX.facts) + [("log2_args", getattr(CTX, "log2_args", []))]))
     except Infeasible:
       pass
     except PathLimit as e:
